@@ -385,9 +385,13 @@ CAMPAIGNS["subset_wide"] = model_campaign(
 CAMPAIGNS["err_profile"] = {
     "name": "err_profile", "kind": "err", "judge": ["BiomErrTrace.tla", "BiomErrTrace.cfg"],
     "cfgs": {"quick": [{"depth": 2, "nest": 3, "pick": [0, 0]},
+                       {"depth": 3, "nest": 2, "pick": [0, 0, 0], "focus": "call"},
+                       {"depth": 4, "nest": 2, "pick": [0, 6, 6, 0], "focus": "call"},
                        {"depth": 4, "nest": 3, "pick": [12, 8, 6, 5]},
                        {"depth": 6, "nest": 3, "pick": [6, 4, 3, 3, 2, 2]}],
              "thorough": [{"depth": 3, "nest": 3, "pick": [0, 0, 12]},
+                          {"depth": 4, "nest": 2, "pick": [0, 0, 0, 0], "focus": "call"},
+                          {"depth": 5, "nest": 2, "pick": [0, 8, 8, 6, 0], "focus": "call"},
                           {"depth": 5, "nest": 3, "pick": [20, 10, 6, 5, 4]},
                           {"depth": 8, "nest": 3, "pick": [8, 4, 3, 3, 2, 2, 2, 2]}]}}
 
